@@ -71,7 +71,7 @@ def _one(name, a, allp, out):
                 rr = subprocess.run([os.path.join(VERIF, "check"), pid, "--tier", a.tier, "--no-evidence"], cwd=VERIF, capture_output=True,
                                     text=True, timeout=3600, env=env)
                 mech = [l.strip() for l in rr.stdout.splitlines() if l.strip().startswith("mechanism=")]
-                if rr.returncode == 1:
+                if rr.returncode == 1 and "VIOLATION property=" in rr.stdout:
                     caught.append((pid, mech[0][:160] if mech else ""))
                 elif pid == meta["property"]:
                     print(f"   {pid} rc={rr.returncode} {rr.stdout.splitlines()[-1] if rr.stdout else rr.stderr[-200:]}", file=out)
